@@ -951,6 +951,8 @@ impl TypeChecker {
                 let (f_ty, ret_ty) = self.type_from_function(ctx, params, ret, *pure)?;
 
                 let ctx = if *pure { ctx.enter_pure() } else { ctx };
+                // A loop around the function is not a loop the body can `break` out of.
+                let ctx = TypeCtx { inside_loop: false, ..ctx };
                 let (actual_ret, implicit_ret) = self.expression_block(*span, body, ctx)?;
                 let actual_ret = if ret.is_void() {
                     let void = Some(self.push_type(Type::Void));
